@@ -82,6 +82,8 @@ def pairs(D, N, order=None):
     if D == 2:
         out.append(("NavierStokesVorticity<->GeneralVorticityConvection", 1, 3, lambda L, dt, p: S.NavierStokesVorticity(D, L, N, dt, diffusivity=p[0], vorticity_convection_scale=p[1], drag=p[2], order=o),
                     lambda L, dt, p: G.GeneralVorticityConvectionStepper(D, L, N, dt, linear_coefficients=(p[2] / D, 0.0, p[0]), vorticity_convection_scale=p[1], order=o), None, None))  # documented: a_0 (1.grad^0) u = D a_0 u
+        out.append(("KolmogorovFlowVorticity<->GeneralVorticityConvection", 1, 4, lambda L, dt, p: S.KolmogorovFlowVorticity(D, L, N, dt, diffusivity=p[0], convection_scale=p[1], drag=p[2], injection_mode=1, injection_scale=p[3], order=o),
+                    lambda L, dt, p: G.GeneralVorticityConvectionStepper(D, L, N, dt, linear_coefficients=(p[2] / D, 0.0, p[0]), vorticity_convection_scale=p[1], injection_mode=1, injection_scale=p[3], order=o), None, None))
     # ---- physical <-> normalized (through the real normalize_* functions): N_norm = dt * N_phys
     times_dt = lambda L, dt, p: dt
     out.append(("GeneralConvection<->Normalized", D, 4, lambda L, dt, p: G.GeneralConvectionStepper(D, L, N, dt, linear_coefficients=(p[0], p[1], p[2]), convection_scale=p[3], order=o),
@@ -139,6 +141,8 @@ def _compare(ck, D, N, name, C, npar, mkA, mkB, factor, extra_pre):
     calls = enc.interp.calls["exp"]
     if not linear:
         _same_integrator(ck, D, N, name, C, npar)
+    if extra_pre is None:
+        _python_scalar_values(ck, D, N, name, C, npar, mkA, mkB)
     # the two constructors run one after the other: first half of the exp calls belongs to A, second half to B
     if len(calls) % 2 != 0:
         ck.add(f"{tag}/exp-arg/count", False, [], family=f"{name}: equal exp arguments",
@@ -168,6 +172,26 @@ def _compare(ck, D, N, name, C, npar, mkA, mkB, factor, extra_pre):
     if cand:
         i = cand[len(cand) // 2]
         ck.add(f"{tag}/twin", sym.equal_goal(enc.outs[1][i], sym.cscale(sym.asc(enc.outs[0][i]), orc.fl(3))), pre + [p[k] > 0 for k in range(npar)], family="C13/twin", expect="sat", timeout=120)
+
+
+def _python_scalar_values(ck, D, N, name, C, npar, mkA, mkB):
+    """concrete part: the paired interfaces agree when the parameters are PYTHON floats with special values (zero,
+    negative).  Constructors branch on `x == 0.0` / `isinstance(x, float)`; the symbolic part passes tracers and cannot
+    take such branches."""
+    fam = f"{name}: agreement for Python-float parameters with special values (concrete)"
+    rng = np.random.default_rng(2)
+    u = jnp.asarray(rng.normal(size=(C,) + (N,) * D)) * 0.2
+    for label, vals in (("negative", [-0.7, -0.3, -1.5, -0.4, 0.6, 0.8]), ("zero", [0.0] * 4 + [0.6, 0.8]), ("mixed", [0.3, 0.0, -0.5, -1.5, 0.6, 0.8])):
+        pv = [float(v) for v in vals[:npar]]
+        try:
+            a, b = mkA(1.3, 0.01, pv)(u), mkB(1.3, 0.01, pv)(u)
+            if not (bool(jnp.all(jnp.isfinite(a))) and bool(jnp.all(jnp.isfinite(b)))):
+                continue  # outside the steppers' range (e.g. anti-diffusion at this dt): nothing to compare
+            e = float(jnp.max(jnp.abs(a - b)))
+            ok, detail = bool(e <= 1e-9 * max(1.0, float(jnp.max(jnp.abs(a))))), f"one step differs by {e:.3g} for parameters {pv}"
+        except Exception as ex_:  # noqa
+            ok, detail = False, f"raises {type(ex_).__name__}: {str(ex_)[:120]} for parameters {pv}"
+        ck.add(f"{name}/D{D}N{N}/python-scalars/{label}", ok, [], family=fam, replay=lambda m, detail=detail: {"reproduced": True, "detail": f"{name}: {detail}"})
 
 
 def _same_integrator(ck, D, N, name, C, npar):
@@ -217,9 +241,13 @@ def _step_replay(D, N, C, npar, mkA, mkB, note=""):
 
 
 def _conversions(ck):
+    for D, N in ((2, 7), (1, 6), (3, 5)):  # the dimension enters the difficulty formulas (2/D is 1 at D = 2)
+        _conversions_DN(ck, D, N)
+
+
+def _conversions_DN(ck, D, N):
     """documented formulas and inverse pairs of exponax.stepper.generic._utils"""
     ins = [In("a", (4,), lo=0.2, hi=1.0), In("L", (), lo=0.5, hi=2.0), In("dt", (), lo=0.1, hi=1.0), In("M", (), lo=0.5, hi=2.0)]
-    D, N = 2, 7
 
     def f(a, L, dt, M):
         t = tuple(a[i] for i in range(4))
@@ -243,7 +271,7 @@ def _conversions(ck):
                     rnl=jnp.stack(rnl), xnl=jnp.stack(xnl))
 
     enc = Encoded(f, ins, tag="cv")
-    enc.validate(ck, what="conversions")
+    enc.validate(ck, what=f"conversions/D{D}")
     import jax
 
     keys = sorted(["nc", "dc", "ncs", "dcs", "ngn", "dgn", "nps", "dps", "rd", "xd", "rcs", "xcs", "rgn", "xgn", "rnl", "xnl"])
@@ -267,7 +295,7 @@ def _conversions(ck):
             got = out[k]
             if isinstance(want, list):
                 for i, w in enumerate(want):
-                    ck.add(f"conversions/{group}/{k}/{i}", sym.equal_goal(got[i], w), pre, family=f"conversion functions: {group}", replay=lambda m: {"reproduced": True, "detail": "conversion function deviates from its documented formula"})
+                    ck.add(f"conversions/D{D}/{group}/{k}/{i}", sym.equal_goal(got[i], w), pre, family=f"conversion functions: {group}")  # generic replay: real functions at the model point
             else:
-                ck.add(f"conversions/{group}/{k}", sym.equal_goal(got[()], want), pre, family=f"conversion functions: {group}", replay=lambda m: {"reproduced": True, "detail": "conversion function deviates from its documented formula"})
-    ck.add("conversions/twin", sym.equal_goal(out["ncs"][()], sym.rmul(a[0], dt)), pre, family="C13/twin", expect="sat")
+                ck.add(f"conversions/D{D}/{group}/{k}", sym.equal_goal(got[()], want), pre, family=f"conversion functions: {group}")
+    ck.add(f"conversions/D{D}/twin", sym.equal_goal(out["ncs"][()], sym.rmul(a[0], dt)), pre, family="C13/twin", expect="sat")
